@@ -271,6 +271,7 @@ def run_clip(case):
           continue
         return bad("clip:inverted", "inverted limits must raise ValueError", "ValueError", "accepted")
       try:
+        list(clip([Q(5), Q(-5)], Q(-2) if l is not None else None, Q(3) if h is not None else None))   # decoy
         got = list(clip([Q(v) for v in x], *args))
         again = list(clip(list(got), *args))
       except Exception as exc:
@@ -313,6 +314,7 @@ def run_zcross(case):
         else:
           exp.append(0)
       try:
+        list(zcross([Q(1), Q(-4), Q(4)], hysteresis=Q(h) + 2, first_sign=-Q(f)))                       # decoy
         if h == 0 and f == 0:
           got = list(zcross([Q(v) for v in x]))
         else:
@@ -336,6 +338,7 @@ def run_unwrap(case):
   for md, st in UNWRAP:
     m, s = F(md), F(st)
     try:
+      list(unwrap([Q(0), Q(9), Q(-9)], max_delta=Q(m) + 1, step=Q(s) * 3))                              # decoy
       got = list(unwrap([Q(v) for v in x], max_delta=Q(m), step=Q(s)))
     except Exception as exc:
       return bad("unwrap:exception:" + type(exc).__name__, "unwrap raised (an empty input must give an "
